@@ -110,6 +110,10 @@ def run(argv, cwd, flavour="plain", env=None, timeout=30.0, cpu=20, fsize=1 << 3
     cpu_used = (r1.ru_utime + r1.ru_stime) - (r0.ru_utime + r0.ru_stime)
     rc = p.returncode
     sig = -rc if rc < 0 else 0
+    if sig in (signal.SIGXCPU, signal.SIGXFSZ):
+        # killed by this harness's own resource limits (CPU time under load, output size): a budget was hit,
+        # which every check treats as inconclusive; the signal number stays visible for the C03 judge
+        timed_out = True
     return Result(rc if rc >= 0 else None, sig, out, err, timed_out, cpu_used, time.time() - t0,
                   [os.path.basename(argv[0])] + argv[1:])
 
